@@ -47,7 +47,7 @@ NON_TLE = ["<html>\n<head><title>503</title></head>\n\n<body>\nService unavailab
            '{"error": "rate limit", "retry": 15}',
            "\n\n<!DOCTYPE html>\n<p>2 errors</p>\n \n"]
 EMPTY = ["", "\n", "", "\r\n", ""]
-COUNTS = [2, 3, 1, 2, 3]
+COUNTS = [2, 1, 3, 1, 2]     # URI 1: exactly one entry without a name line (a two-line body); URI 3: the same after a blank line
 NAMES = ["NOAA 19", "METOP-B", "SUOMI NPP", "ISS (ZARYA)", "AQUA", "TERRA", "NOAA 20", "FY-3D"]
 
 
